@@ -69,6 +69,14 @@ fn corrupt_structured(r: &Replay, rng: &mut Rng, kind: u64) -> (Vec<u8>, String)
         19 => { // an event code listed twice in the payload-size table: same size, or another one (the later entry is the one in force)
             let i = pick(rng, sizes.len()); let mut e = sizes[i]; if rng.next() % 2 == 0 { e.1 = e.1.wrapping_add([1u16, 3, 0xffff][(rng.next() % 3) as usize]); }
             let at = pick(rng, sizes.len() + 1).max(1); sizes.insert(at, e); "duplicate-table-entry" }
+        20 => { // split messages whose wrapped command has no entry in the payload-size table (only the splitter itself is declared): the Gecko list of the
+            // game with its entry removed, or one more message wrapping 0x3D / a frame event / an unknown code
+            if let Some(i) = sizes.iter().position(|x| x.0 == 0x3D) { if rng.next() % 2 == 0 { sizes.remove(i); } }
+            if !sizes.iter().any(|x| x.0 == 0x10) { sizes.push((0x10, 516)); }
+            if r.gecko.is_none() || rng.next() % 2 == 0 { let code = [0x3Du8, 0x3D, 0x50, 0x3B][(rng.next() % 4) as usize]; let nb = 1 + (rng.next() % 2) as usize; let i = pick(rng, body.len() + 1); let mut blocks = vec![];
+                for bi in 0..nb { let mut ev = vec![0x10u8]; ev.extend(rng.bytes(512)); let actual: u16 = if bi + 1 == nb { [512u16, 300, 1][(rng.next() % 3) as usize] } else { 512 }; ev.extend(actual.to_be_bytes()); ev.push(code); ev.push((bi + 1 == nb) as u8); blocks.push(ev); }
+                body.splice(i..i, blocks); }
+            "wrapped-code-not-in-table" }
         _ => { if let Some(f) = r.frames.first_mut() { f.id = [i32::MAX, i32::MIN, -124, 0][(rng.next() % 4) as usize]; } body = body_events(&r, &pad); "extreme-first-id" }
     };
     let mut out = assemble(&r, &sizes, &body, &junk, &pad);
@@ -118,7 +126,7 @@ fn mal(rng: &mut Rng, ctx: &mut Ctx) {
     let go = GenOpts { max_frames: 5, newer: false, force: None };
     for k in 0..ctx.n {
         // structured corruptions walk the 18 kinds; events illegal for the version get every framing regime in turn
-        let kind = if k % 4 == 1 { 6 } else if k % 8 == 3 { 16 } else if k % 16 == 7 { 17 } else if k % 16 == 15 || k % 16 == 11 { 18 } else if k % 32 == 10 { 19 } else { rng.next() % 20 };
+        let kind = if k % 4 == 1 { 6 } else if k % 8 == 3 { 16 } else if k % 16 == 7 { 17 } else if k % 16 == 15 || k % 16 == 11 { 18 } else if k % 32 == 10 { 19 } else if k % 16 == 14 { 20 } else { rng.next() % 21 };
         let go = if kind == 6 { GenOpts { max_frames: 4, newer: false, force: Some([(1u8,0u8,0u8),(2,1,0),(2,2,0),(2,255,3),(3,0,0),(3,6,0),(0,1,0),(2,5,0)][(k / 4) % 8]) } } else { GenOpts { max_frames: 5, newer: false, force: None } };
         let (r, tags) = gen_replay(rng, k, &go);
         let (b, kind) = if k % 3 == 0 && kind != 6 { let b = encode(&r); corrupt_bytes(&b, rng) } else { corrupt_structured(&r, rng, kind) };
@@ -145,7 +153,7 @@ fn prefix(rng: &mut Rng, ctx: &mut Ctx) {
     let go = GenOpts { max_frames: 3, newer: false, force: None };
     for k0 in 0..ctx.n { let k = k0 + ctx.seed as usize;
         // one file per framing regime in turn, finished (Game End present), varied container shape
-        let (mut r, tags) = loop { let kk = k * 7 + (rng.next() % 50) as usize; let (r, t) = gen_replay(rng, kk, &go); let reg = ["regimeA", "regimeB", "regimeC"][k % 3]; if t[7] == reg && r.end.is_some() { break (r, t); } };
+        let (mut r, tags) = loop { let kk = k * 7 + (rng.next() % 50) as usize; let (r, t) = gen_replay(rng, kk, &go); let reg = ["regimeA", "regimeB", "regimeC", "regimeA"][k % 4]; let want_gecko = k % 4 == 3; /* the fourth file carries a Gecko list (Message Splitter blocks) */ if t[7] == reg && r.end.is_some() && (!want_gecko || (r.gecko.is_some() && r.frames.len() <= 2)) { break (r, t); } };
         if k % 4 == 3 { r.metadata = None; }
         let b = encode(&r);
         for skip in [false, true] {
@@ -347,6 +355,14 @@ fn irr(rng: &mut Rng, ctx: &mut Ctx) {
                 if let (Some(sg), Some(g)) = (&sg, &g) { if start_json(&sg.start) != start_json(&g.start) || end_json(&sg.end) != end_json(&g.end) || sg.metadata != g.metadata { c.fail("C10", "skip-frames start/end/metadata differ from the full parse (replay with unknown events / permuted bodies)"); } } }
             ctx.push(c);
         }
+        // the same irregular file read with the debug option (every event dumped into a directory): same game
+        if k % 10 == 7 { let dir = std::env::temp_dir().join(format!("pv-debug-irr-{}-{}", std::process::id(), k)); let _ = std::fs::remove_dir_all(&dir);
+            let o = slippi::de::Opts { skip_frames: false, compute_hash: hashed, debug: Some(slippi::de::Debug { dir: dir.clone() }) };
+            let res = std::panic::catch_unwind(|| slippi::read(Cursor::new(&x), Some(&o)));
+            let dl = match res { Err(_) => "panic".to_string(), Ok(Err(e)) => format!("err {}", e), Ok(Ok(g)) => dump::summary(&g) };
+            let mut c = Case::new(read_cmd(false, hashed, &x), dl.clone()); c.tags = vec!["irr-debug-opt".into()];
+            if dl != l0 { let m = format!("replay with unknown events / junk read with the debug option differs from the read without it: {} vs {}", &dl[..dl.len().min(100)], &l0[..l0.len().min(100)]); c.fail("C08", m.clone()); if dl == "panic" { c.fail("C06", m); } }
+            ctx.push(c); let _ = std::fs::remove_dir_all(&dir); }
         if aligned > 0 && r.end.is_some() { let (bsl, _) = read_line(&base, true, false);
             for hsh in [true, false] { let (sl, _) = read_line(&x, true, hsh);
                 let mut c = Case::new(read_cmd(true, hsh, &x), sl.clone()); c.tags = vec![format!("aligned-skip hash{}", hsh as u8)];
@@ -359,8 +375,11 @@ fn irr(rng: &mut Rng, ctx: &mut Ctx) {
             if r2.metadata.is_none() { r2.metadata = Some(b"U\x01aSU\x01b".to_vec()); }
             let x2 = assemble(&r2, &sizes, &body, &[], &pad); let (l, g) = read_line(&x2, false, false);
             let mut x0 = x2.clone(); x0[11..15].copy_from_slice(&[0, 0, 0, 0]);
-            let (lz, gz) = read_line(&x0, false, false);
-            let mut c = Case::new(read_cmd(false, false, &x0), lz.clone()); c.tags = vec!["rawlen0".into()];
+            let hz = (k / 7) % 2 == 0;
+            let (lz, gz) = read_line(&x0, false, hz);
+            let mut c = Case::new(read_cmd(false, hz, &x0), lz.clone()); c.tags = vec![format!("rawlen0 hash{}", hz as u8)];
+            if hz { if let Some(gz) = &gz { let xx = format!("xxh3:{:016x}", xxhash_rust::xxh3::xxh3_64(&x0)); if gz.hash.as_deref() != Some(xx.as_str()) { c.fail("C11", format!("hash {:?} of a replay with raw length 0 in its header is not XXH3-64 of the file {}", gz.hash, xx)); } } }
+            let lz = dump::strip_hash(&lz);
             if lz != l { c.fail("C08", format!("replay with raw length 0 in the header reads differently: {} vs {}", &lz[..lz.len().min(120)], &l[..l.len().min(120)])); }
             match (&gz, &g) { (Some(gz), Some(g)) => { if gz.metadata != g.metadata { c.fail("C16", "metadata of a replay with raw length 0 in the header differs (or is dropped)".to_string()); } if end_json(&gz.end) != end_json(&g.end) { c.fail("C05", "Game End of a replay with raw length 0 differs".to_string()); } }
                 (None, Some(_)) => { c.fail("C16", format!("replay with raw length 0 in the header rejected: {}", &lz[..lz.len().min(100)])); } _ => {} }
@@ -432,7 +451,7 @@ fn maxver(rng: &mut Rng, ctx: &mut Ctx) {
     if ctx.thorough { for a in 0..=255u8 { for b in (0..=255u8).step_by(5) { vs.push((a, b, [0u8, 1, 255][(a as usize + b as usize) % 3])); } } for b in 0..=255u8 { for p in [0u8, 1, 255] { vs.push((3, b, p)); } } }
     for (k, v) in vs.into_iter().enumerate() {
         if v.0 == 0 && v.1 == 0 { continue; }
-        let mut r = simple(v, &[(0, 0, 2), (2, 1, 14)], k % 3, &[], rng); if k % 4 == 0 { r.metadata = None; } // zero frames included: the .slpp writer has no frames.arrow then
+        let mut r = simple(v, &[(0, 0, 2), (2, 1, 14)], k % 3, &[], rng); if k % 4 == 0 { r.metadata = None; } if (k + k / 5) % 5 == 2 { r.end = None; /* a game still in progress / cut short: refused or written by its version like any other */ } // zero frames included: the .slpp writer has no frames.arrow then
         let b = encode(&r);
         let exp_refuse = v > MAXV;
         let mut c = Case::new(format!("rt {}", hex(&b)), String::new()); c.tags = vec![format!("refuse{}", exp_refuse as u8), format!("frames{}", k % 3), if v.0 == 3 && (15..=17).contains(&v.1) { "boundary".into() } else { "far".into() }];
@@ -702,7 +721,11 @@ fn inc(rng: &mut Rng, ctx: &mut Ctx) {
                             // available now); one that gives up on an event carries on with the next call: an error leaves the state usable — no panic
                             let _ = slippi::de::parse_event(&mut src, &mut st, None);
                             let from = (15 + st.bytes_read()).min(b.len()); let mut again = Cursor::new(&b[from..]);
-                            for _ in 0..3 { if slippi::de::parse_event(&mut again, &mut st, None).is_err() { break; } }
+                            // ... and on to the end of the raw element: the frames are those of the one-shot read (nothing of the failed attempt sticks)
+                            let mut done = true; while st.bytes_read() < raw_end - 15 { match slippi::de::parse_event(&mut again, &mut st, None) { Ok(0x39) => break, Ok(_) => {} Err(_) => { done = false; break; } } }
+                            if done { if let Some(g) = fg.as_ref() { let n = st.frames().id.len();
+                                if n != g.frames.id.len() { let m = format!("stream cut at {}, event retried once its bytes were there: {} frames, the one-shot read has {}", cut, n, g.frames.id.len()); fails.push(("C12".into(), m.clone())); fails.push(("C04".into(), m)); }
+                                else if let Err(m) = completed_prefix_ok(&st, g, n.saturating_sub(1)) { let m = format!("stream cut at {}, event retried once its bytes were there: {}", cut, m); fails.push(("C03".into(), m.clone())); fails.push(("C12".into(), m.clone())); fails.push(("C04".into(), m)); } } }
                             return Err(format!("err {}", e)); } };
                         if st.bytes_read() != src.pos - 15 { fails.push(("C12".into(), format!("stream cut at {}: after event {:#x} bytes_read {} != bytes delivered {}", cut, code, st.bytes_read(), src.pos - 15))); return Ok("ok overcount".into()); }
                         if code == 0x39 { fails.push(("C12".into(), format!("stream cut at {} (inside the raw element of {} bytes): the incremental API reports Game End", cut, raw_end - 15))); fails.push(("C07".into(), "incremental API reports a finished game on a truncated stream".into())); return Ok("ok gameend".into()); } } }));
@@ -724,12 +747,13 @@ fn frag(rng: &mut Rng, ctx: &mut Ctx) {
         let mut c = Case::new(reads_cmd(skip, hash, &plan, &b), String::new());
         let res = std::panic::catch_unwind(|| slippi::read(Chunked::new(b.clone(), plan.clone(), None), Some(&o)));
         match res { Err(_) => { c.impl_out = "panic".into(); c.fail("C06", "reader panicked under short reads"); }
-            Ok(Err(e)) => { c.impl_out = format!("err {}", e); if fg.is_some() { c.fail("C12", format!("read fails under fragmentation {}: {}", pname, e)); c.fail("C11", "read fails under fragmentation"); if !skip { c.fail("C01", format!("a well-formed replay is rejected when its source returns short reads ({}): {}", pname, e)); } if skip { c.fail("C10", format!("skip-frames read fails over a stream with short reads ({}): {}", pname, e)); } } }
+            Ok(Err(e)) => { c.impl_out = format!("err {}", e); if fg.is_some() { c.fail("C05", format!("Game Start / Game End not found where they are when the source returns short reads ({}, skip={}, hash={}): {}", pname, skip, hash, e)); c.fail("C12", format!("read fails under fragmentation {}: {}", pname, e)); c.fail("C11", "read fails under fragmentation"); if !skip { c.fail("C01", format!("a well-formed replay is rejected when its source returns short reads ({}): {}", pname, e)); } if skip { c.fail("C10", format!("skip-frames read fails over a stream with short reads ({}): {}", pname, e)); } } }
             Ok(Ok(g)) => { let mut s = dump::summary(&g); c.impl_out = s.clone();
                 if s != fl { c.fail("C12", format!("game read under fragmentation {} differs from the unfragmented read", pname)); }
                 // the history oracle (spec offsets, presence, rows per frame) on what was read through short reads, hashing on or off
                 if !skip { check_frames(&r, &g, &mut c); }
                 if skip { if let Some(f) = &fg { if start_json(&g.start) != start_json(&f.start) || end_json(&g.end) != end_json(&f.end) || g.metadata != f.metadata { c.fail("C10", format!("skip-frames start/end/metadata differ over a stream with short reads ({})", pname)); } } }
+                if let Some(f) = &fg { if start_json(&g.start) != start_json(&f.start) || end_json(&g.end) != end_json(&f.end) || g.end.as_ref().map(|e| &e.bytes.0) != f.end.as_ref().map(|e| &e.bytes.0) { c.fail("C05", format!("Game Start / Game End fields read through short reads ({}, skip={}, hash={}) are not those of the blocks: {} vs {}", pname, skip, hash, end_json(&g.end), end_json(&f.end))); } }
                 if hash { if g.hash.as_deref() != Some(xx.as_str()) { c.fail("C11", format!("hash under fragmentation {} (skip={}) is {:?}, XXH3-64 of the file is {}", pname, skip, g.hash, xx)); } } else if g.hash.is_some() { c.fail("C11", "hash reported though not requested"); } } }
         tags.push(format!("plan:{}", pname)); tags.push(format!("skip{}", skip as u8)); tags.push(format!("hash{}", hash as u8)); c.tags = tags;
         ctx.push(c);
